@@ -607,13 +607,16 @@ impl Engine for C17 {
             assumptions: vec![
                 "behaviour after resuming a coroutine that died with an error, and a main thread that waits for a lazy held by a suspended coroutine (program-level deadlock), are not specified by the property: the generator avoids them and the model stops comparing there",
             ],
-            shrink: vec!["/main", "/coros/0", "/coros/1", "/coros/2"],
+            shrink: vec!["/main", "/coros/0", "/coros/1", "/coros/2", "/threads/0", "/threads/1", "/threads/2", "/threads/3"],
             quick: (8000, 150),
             thorough: (300000, 1100),
         }
     }
 
     fn generate(&self, rng: &mut Rng, _tier: &str) -> Value {
+        if rng.chance(2, 5) {
+            return crate::props::c17b::generate(rng);
+        }
         let nch = 1 + rng.below(2);
         let nref = 1 + rng.below(2);
         let nl = rng.below(4);
@@ -686,6 +689,9 @@ impl Engine for C17 {
     }
 
     fn run(&self, w: &Value) -> Result<(), Violation> {
+        if w["class"].as_str() == Some("threads") {
+            return crate::props::c17b::run(w);
+        }
         let spec = Spec::from_json(w);
         let mut model = Model::new(&spec);
         model.run(0);
